@@ -44,12 +44,72 @@ func c13sDbHash(db dbm.DB) string {
 
 func c13sAddr(k int) common.Address { return common.Address{0x77, byte(k >> 8), byte(k)} }
 
-func c13sBal(s *state.StateDB, k int) string {
-	b := s.GetBalance(c13sAddr(k))
-	if b == nil || b.Sign() == 0 {
-		return "val -"
+// Modelled keys: K = kind*100 + k.  kind 0: balance of account 0x77,k; kind 1: identity status of 0x79,k (values 1..8);
+// kind 2: value under key k of the contract 0x7a,0; kind 3: nonce of account 0x78,k.  The zero value is "absent".
+var c13sContract = common.Address{0x7a, 0}
+
+func c13sNorm(K int, v int64) int64 {
+	if K/100 == 1 && v != 0 {
+		// a status other than Killed (a Killed identity is removed from the state when the block is committed)
+		return []int64{1, 2, 3, 4, 6, 7, 8}[v%7]
 	}
-	return "val " + b.String()
+	return v
+}
+
+func c13sSet(s *state.StateDB, K int, v int64) {
+	k := K % 100
+	switch K / 100 {
+	case 0:
+		s.SetBalance(c13sAddr(k), big.NewInt(v))
+	case 1:
+		s.SetState(common.Address{0x79, byte(k)}, state.IdentityState(v))
+	case 2:
+		if v == 0 {
+			s.RemoveContractValue(c13sContract, []byte{byte(k)})
+		} else {
+			s.SetContractValue(c13sContract, []byte{byte(k)}, []byte(fmt.Sprint(v)))
+		}
+	default:
+		s.SetNonce(common.Address{0x78, byte(k)}, uint32(v))
+	}
+}
+
+func c13sBal(s *state.StateDB, K int) string {
+	k := K % 100
+	switch K / 100 {
+	case 0:
+		b := s.GetBalance(c13sAddr(k))
+		if b == nil || b.Sign() == 0 {
+			return "val -"
+		}
+		return "val " + b.String()
+	case 1:
+		st := s.GetIdentityState(common.Address{0x79, byte(k)})
+		if st == 0 {
+			return "val -"
+		}
+		return fmt.Sprintf("val %d", st)
+	case 2:
+		v := s.GetContractValue(c13sContract, []byte{byte(k)})
+		if len(v) == 0 {
+			return "val -"
+		}
+		return "val " + string(v)
+	default:
+		n := s.GetNonce(common.Address{0x78, byte(k)})
+		if n == 0 {
+			return "val -"
+		}
+		return fmt.Sprintf("val %d", n)
+	}
+}
+
+// c13sKey picks a modelled key: half of the time a balance, else one of the other kinds
+func c13sKey(r *rand.Rand, nKeys int) int {
+	if r.Intn(2) == 0 {
+		return r.Intn(nKeys)
+	}
+	return (1+r.Intn(3))*100 + r.Intn(6)
 }
 
 // c13sIter: range iteration of the tree behind a StateDB (IterateAccounts: the tree only, in key order), restricted to
@@ -101,7 +161,9 @@ func c13sIter(s *state.StateDB) string {
 func c13sWant(m map[int]string) string {
 	var ks []int
 	for k := range m {
-		ks = append(ks, k)
+		if k < 100 { // range iteration lines cover the balance keys
+			ks = append(ks, k)
+		}
 	}
 	sort.Ints(ks)
 	var parts []string
@@ -171,6 +233,9 @@ func c13sRun(c *hx.Ctx, cs c13sCase) error {
 	if err := twin.Initialize(0); err != nil {
 		return err
 	}
+	// the contract whose store holds the kind-2 keys exists from the first commit on (on both states)
+	app.State.DeployContract(c13sContract, common.Hash{1}, big.NewInt(1))
+	twin.State.DeployContract(c13sContract, common.Hash{1}, big.NewInt(1))
 	keep := state.MaxSavedStatesCount
 	c.Line(fmt.Sprintf("new %d", keep), "ok")
 	fail := func(sig, detail string) { c.Fail(sig, detail, cs) }
@@ -181,16 +246,16 @@ func c13sRun(c *hx.Ctx, cs c13sCase) error {
 	for b := 0; b < cs.Blocks; b++ {
 		// canonical writes
 		for j, n := 0, r.Intn(5); j < n; j++ {
-			k := r.Intn(nKeys)
+			k := c13sKey(r, nKeys)
 			if r.Intn(5) == 0 {
-				app.State.SetBalance(c13sAddr(k), big.NewInt(0))
-				twin.State.SetBalance(c13sAddr(k), big.NewInt(0))
+				c13sSet(app.State, k, 0)
+				c13sSet(twin.State, k, 0)
 				delete(cur, k)
 				c.Line(fmt.Sprintf("cset %d -", k), "ok")
 			} else {
-				v := int64(1 + r.Intn(1000))
-				app.State.SetBalance(c13sAddr(k), big.NewInt(v))
-				twin.State.SetBalance(c13sAddr(k), big.NewInt(v))
+				v := c13sNorm(k, int64(1+r.Intn(1000)))
+				c13sSet(app.State, k, v)
+				c13sSet(twin.State, k, v)
 				cur[k] = fmt.Sprint(v)
 				c.Line(fmt.Sprintf("cset %d %d", k, v), "ok")
 			}
@@ -227,13 +292,13 @@ func c13sRun(c *hx.Ctx, cs c13sCase) error {
 		}
 		if r.Intn(2) == 0 {
 			for j, n := 0, 1+r.Intn(4); j < n; j++ {
-				k := r.Intn(nKeys)
+				k := c13sKey(r, nKeys)
 				if r.Intn(4) == 0 {
-					app.State.SetBalance(c13sAddr(k), big.NewInt(0))
+					c13sSet(app.State, k, 0)
 					c.Line(fmt.Sprintf("cset %d -", k), "ok")
 				} else {
-					v := int64(7000 + r.Intn(1000))
-					app.State.SetBalance(c13sAddr(k), big.NewInt(v))
+					v := c13sNorm(k, int64(7000+r.Intn(1000)))
+					c13sSet(app.State, k, v)
 					c.Line(fmt.Sprintf("cset %d %d", k, v), "ok")
 				}
 			}
@@ -258,7 +323,7 @@ func c13sRun(c *hx.Ctx, cs c13sCase) error {
 			if it1 != c13sWant(snap) {
 				fail("C13:abandoned-writes-visible-after-reset", fmt.Sprintf("height %d: iteration after Reset %s, committed %s", height, it1, c13sWant(snap)))
 			}
-			k := r.Intn(nKeys)
+			k := c13sKey(r, nKeys)
 			c.Line(fmt.Sprintf("cget %d", k), c13sBal(app.State, k))
 			if app.State.Root() != twin.State.Root() || app.IdentityState.Root() != twin.IdentityState.Root() {
 				fail("C13:abandoned-writes-left-trace", fmt.Sprintf("height %d: roots differ from the twin after Reset", height))
@@ -281,20 +346,20 @@ func c13sRun(c *hx.Ctx, cs c13sCase) error {
 				} else {
 					c.Line(fmt.Sprintf("view %d", h), "ok")
 					for j, n := 0, 1+r.Intn(5); j < n; j++ {
-						k := r.Intn(nKeys)
+						k := c13sKey(r, nKeys)
 						if r.Intn(3) == 0 {
 							a := c13sBal(view.State, k)
 							c.Line(fmt.Sprintf("vget %d", k), a)
 						} else if r.Intn(5) == 0 {
-							view.State.SetBalance(c13sAddr(k), big.NewInt(0))
+							c13sSet(view.State, k, 0)
 							c.Line(fmt.Sprintf("vset %d -", k), "ok")
 						} else {
-							v := int64(5000 + r.Intn(1000))
-							view.State.SetBalance(c13sAddr(k), big.NewInt(v))
+							v := c13sNorm(k, int64(5000+r.Intn(1000)))
+							c13sSet(view.State, k, v)
 							c.Line(fmt.Sprintf("vset %d %d", k, v), "ok")
 						}
 					}
-					k := r.Intn(nKeys)
+					k := c13sKey(r, nKeys)
 					c.Line(fmt.Sprintf("vget %d", k), c13sBal(view.State, k))
 					if r.Intn(2) == 0 {
 						c13sRichWrites(view, rand.New(rand.NewSource(r.Int63())), height+7)
@@ -317,7 +382,7 @@ func c13sRun(c *hx.Ctx, cs c13sCase) error {
 			if h < 1 {
 				continue
 			}
-			k := r.Intn(nKeys)
+			k := c13sKey(r, nKeys)
 			if h <= height-keep {
 				// a pruned height: the property makes no claim (observed only: AppState.Readonly keeps the last requested
 				// height in a cache that is not dropped when that version is pruned, so this may error, panic or read stale nodes)
@@ -369,7 +434,7 @@ func c13sRun(c *hx.Ctx, cs c13sCase) error {
 		if d := c13sDbHash(db); d != db0 {
 			fail("C13:speculative-work-wrote-database", fmt.Sprintf("height %d: database content changed by work on views (%s -> %s)", height, db0, d))
 		}
-		k := r.Intn(nKeys)
+		k := c13sKey(r, nKeys)
 		c.Line(fmt.Sprintf("cget %d", k), c13sBal(app.State, k))
 	}
 	return nil
